@@ -459,6 +459,7 @@ func (e *env) add(q, prio, outcome int, gated bool, id string) *sub {
 type itemSpec struct {
 	prio, outcome int
 	gated         bool
+	noID          bool // submitted with an empty ID: the worker's id generator names the job
 }
 
 func (e *env) addAll(q int, specs []itemSpec) *batch {
@@ -466,7 +467,11 @@ func (e *env) addAll(q int, specs []itemSpec) *batch {
 	items := make([]Item[int], 0, len(specs))
 	for i, sp := range specs {
 		id := fmt.Sprintf("b%d-%d", b.idx, i)
-		s := e.newSub(q, sp.prio, sp.outcome, sp.gated, "g:"+id)
+		sid := "g:" + id
+		if sp.noID {
+			id, sid = "", ""
+		}
+		s := e.newSub(q, sp.prio, sp.outcome, sp.gated, sid)
 		s.batch = b
 		b.items = append(b.items, s)
 		items = append(items, Item[int]{ID: id, Data: s.data, Priority: sp.prio})
